@@ -12,7 +12,7 @@ from sx.shims import STUBS  # noqa
 from .pipe_common import PipeShape, base_config
 
 ID = 'C08'
-BUDGET_S = {'quick': 170, 'thorough': 2400}
+BUDGET_S = {'quick': 170, 'thorough': 3600}
 SHAPE_WALL_S = {'quick': 100, 'thorough': 600}
 FAMILY = ('PIPE: directive sequences over #if/#elif (six comparison operators and the implied "!= 0") / #ifdef / #ifndef / '
           '#else / #endif / #define / #mute / #unmute / #include, nesting depth <= 3, marker `.byte k`, label and '
@@ -375,7 +375,7 @@ def shapes(tier, seed):
                       'extra-endif': [('ift', S1), M(1), ('endif',), ('endif',)]}.items():
         S.append(CondShape(f'illformed:{name}', stmts={'main.asm': seq}, expect=[]))
     rnd = random.Random(4242 + seed)
-    n = 250 if tier == 'quick' else 3000
+    n = 250 if tier == 'quick' else 8000
     for i in range(n):
         S.append(CondShape(f'rnd:{seed}:{i}', stmts={'main.asm': random_seq(rnd, rnd.randint(5, 9 if tier == 'quick' else 12))},
                            expect=[]))
